@@ -536,6 +536,18 @@ def decimal_arith(op, a, b, pos):
         )
 
 
+def decimal_value(number, pos):
+    # a decimal value holds a host float, also when it was made from an int
+    try:
+        return ValueDecimal(float(number))
+    except OverflowError:
+        raise CklRuntimeError(
+            ValueString("ERROR"),
+            "Number too large for a decimal",
+            pos,
+        )
+
+
 class FuncAcos(ValueFunc):
     def __init__(self):
         super().__init__("acos")
@@ -1039,7 +1051,9 @@ class FuncCeiling(ValueFunc):
         if args.isNull("x"):
             return NULL
         try:
-            return ValueDecimal(math.ceil(args.getNumerical("x").value))
+            return decimal_value(
+                math.ceil(args.getNumerical("x").value), pos
+            )
         except (OverflowError, ValueError):
             raise CklRuntimeError(
                 ValueString("ERROR"), "Cannot round a non-finite number", pos
@@ -1247,7 +1261,7 @@ class FuncDecimal(ValueFunc):
         return ["obj"]
 
     def execute(self, args, environment, pos):
-        return args.getAsDecimal("obj")
+        return decimal_value(args.getAsDecimal("obj").value, pos)
 
 
 class FuncDeleteAt(ValueFunc):
@@ -1884,7 +1898,9 @@ class FuncFloor(ValueFunc):
         if args.isNull("x"):
             return NULL
         try:
-            return ValueDecimal(math.floor(args.getNumerical("x").value))
+            return decimal_value(
+                math.floor(args.getNumerical("x").value), pos
+            )
         except (OverflowError, ValueError):
             raise CklRuntimeError(
                 ValueString("ERROR"), "Cannot round a non-finite number", pos
@@ -3547,7 +3563,7 @@ class FuncRound(ValueFunc):
         digits = 0
         if args.hasArg("digits"):
             digits = args.getInt("digits").value
-        return ValueDecimal(round(x.asDecimal().value, digits))
+        return decimal_value(round(x.asDecimal().value, digits), pos)
 
 
 class FuncRun(ValueFunc):
